@@ -48,7 +48,11 @@ type obs struct {
 	x     *sched.Execution
 }
 
+// gfCounter gives every execution its own generic function (slip keeps functions in process-global tables).
+var gfCounter int
+
 type env struct {
+	src   string
 	scope *slip.Scope
 	val   slip.Object
 	err   *lisp.Err
@@ -269,6 +273,47 @@ var scenarios = []*scenario{
   (channel-pop d)
   (list r1 r2))`,
 		check: nil, canon: rawVal},
+	{name: "d3-defmethod-vs-first-call", group: "d", yield: false, quick: 2, thorough: -1,
+		src: `(progn
+  (defgeneric @G (a))
+  (defmethod @G ((a real)) 'real-method)
+  (let ((d (make-channel 2)) (r1 nil))
+    (run (progn (defmethod @G ((a fixnum)) 'fixnum-method) (channel-push d t)))
+    (setq r1 (@G 1))
+    (channel-pop d)
+    (list r1 (@G 1) (@G 1.5))))`,
+		check: func(o *obs) []string {
+			if o.err != nil {
+				return []string{"error: " + o.err.String()}
+			}
+			switch o.val {
+			case "(real-method fixnum-method real-method)", "(fixnum-method fixnum-method real-method)":
+				return nil
+			}
+			return []string{"stale-dispatch: after defmethod completed the calls gave " + o.val + "; (real|fixnum fixnum real) required"}
+		},
+		canon: func(o *obs) string { return "completed" }},
+	{name: "d4-remove-method-vs-call", group: "d", yield: false, quick: 2, thorough: -1,
+		src: `(progn
+  (defgeneric @G (a))
+  (defmethod @G ((a real)) 'real-method)
+  (defmethod @G ((a fixnum)) 'fixnum-method)
+  (let ((d (make-channel 2)) (r1 nil))
+    (run (progn (remove-method #'@G (find-method #'@G '() '(fixnum))) (channel-push d t)))
+    (setq r1 (@G 1))
+    (channel-pop d)
+    (list r1 (@G 1) (@G 1.5))))`,
+		check: func(o *obs) []string {
+			if o.err != nil {
+				return []string{"error: " + o.err.String()}
+			}
+			switch o.val {
+			case "(real-method real-method real-method)", "(fixnum-method real-method real-method)":
+				return nil
+			}
+			return []string{"stale-dispatch: after remove-method completed the calls gave " + o.val + "; (real|fixnum real real) required"}
+		},
+		canon: func(o *obs) string { return "completed" }},
 	// ---- (e) negative control: an unsynchronised read-modify-write MUST be caught
 	{name: "e1-unsynchronised-counter", group: "e", yield: true, negative: true, quick: 2, thorough: 2,
 		src: `(let ((n 0) (d (make-channel 2)))
@@ -305,11 +350,12 @@ func (sc *scenario) build() *sched.Scenario {
 			if sc.yield {
 				scope.InterruptCheck = vsched.Yield
 			}
-			return &env{scope: scope}
+			gfCounter++
+			return &env{scope: scope, src: strings.ReplaceAll(sc.src, "@G", fmt.Sprintf("c17-g%d", gfCounter))}
 		},
 		Main: func(e any) {
 			en := e.(*env)
-			en.val, en.err = lisp.EvalIn(en.scope, sc.src)
+			en.val, en.err = lisp.EvalIn(en.scope, en.src)
 		},
 	}
 }
@@ -466,7 +512,7 @@ func execCase(spec string) (res engine.Result) {
 		negHit := 0
 		st := sched.Explore(sc.build(), b, sh, n, func(x *sched.Execution) bool {
 			fails, canon := verdicts(sc, x, serial)
-			outcomes[canon]++
+			outcomes[canon+" <= "+observe(x).val]++
 			if sc.negative {
 				for _, f := range fails {
 					if strings.HasPrefix(f.Sig, "harness:") {
